@@ -29,6 +29,18 @@ pub fn gen_base(rng: &mut Rng) -> Scenario {
     };
     let mut sc = Scenario::new(doc.bytes);
     sc.encoding = enc;
+    let mut directed: Option<&str> = None;
+    if sc.encoding == "utf-8" && rng.chance(1, 40) {
+        // tags the tag scanner hands to the lexer through *unhandled tree-builder feedback*
+        // (integration points, names the compact hash cannot hold), followed by plain text so
+        // that a write boundary can fall after the end tag and before the next '<'
+        let name = rng.pick(&["annotation-xml", "mi", "mtext", "desc", "foreignobject", "a-very-long-custom-element-name", "title"]);
+        let (o, c) = if matches!(name, "annotation-xml" | "mi" | "mtext") { ("<math>", "</math>") } else { ("<svg>", "</svg>") };
+        let attrs = if name == "annotation-xml" { " encoding=\"text/html\"" } else { "" };
+        let d = format!("<p>a</p>{o}<{name}{attrs}><b>h</b>t</{name}> some trailing text and more{c}<i>z</i> tail");
+        sc = Scenario::new(d.into_bytes());
+        directed = Some(name);
+    }
     sc.strict = rng.bool();
     sc.esi = rng.chance(1, 4);
     sc.closure_sink = rng.chance(1, 4);
@@ -40,6 +52,12 @@ pub fn gen_base(rng: &mut Rng) -> Scenario {
         sc.handlers = wl::observers(rng);
         if rng.chance(1, 4) {
             sc.joins = wl::random_joins(rng, &sc.handlers);
+        }
+    }
+    if let Some(name) = directed {
+        if rng.bool() {
+            sc.handlers = vec![wl::el_observer_with_end(name)];
+            sc.joins.clear();
         }
     }
     if rng.chance(1, 8) {
